@@ -14,7 +14,7 @@ META = {
     "id": "C34",
     "level": "model_checking",
     "technique": "TLA+ spec Interp (transcription of block selection / Lagrange coefficients / half-open areas over exact rationals + independent C34 predicates), TLC exhaustive over dyadic grids; exact probing of eko.interpolation judged by TLC trace spec InterpTrace on the code's own coefficients, values and re-interpolation matrices; log mode and random grids by TLC-planned laws with integer classes (exploration)",
-    "text": "TLC checks, for every grid of 2-6 points from {1/16..1} (degree 1-3; degree 4 on {1/8..1}), that the transcribed basis is one at its own node and zero at the others, sums to one and reproduces every monomial up to the degree at all nodes, area boundaries and midpoints, also through get_interpolation, and that exactly the invalid requests are refused. The real InterpolatorDispatcher is run on grids of the same domain in linear mode; its blocks, coefficients, evaluate_x values and get_interpolation matrices are recovered as exact rationals (uniqueness-guarded) and TLC evaluates the same predicates on them, then compares them with the transcription. Logarithmic mode and random grids (2-40 points, x_min to 1e-9, degree 1-6) are measured in every cell of the plan TLC enumerates (Partition, Kronecker, PolyReproduce, Reinterp, ReinterpTinyX) and reported as integer decades of the residual and of a conditioning bound derived from the code's coefficients; TLC requires the residual below max(1e-8, 100 x bound) in every cell whose bound is at most 1e-7 (3 decades to the smallest structural violation), reports the others unresolved, and checks plan completeness.",
+    "text": "TLC checks, for every grid of 2-6 points from {0, 1/16..1} (degree 1-3; degree 4 on {0, 1/8..1}; a linear grid may start at x = 0), that the transcribed basis is one at its own node and zero at the others, sums to one and reproduces every monomial up to the degree at all nodes, area boundaries and midpoints, also through get_interpolation, and that exactly the invalid requests are refused. The real InterpolatorDispatcher is run on grids of the same domain in linear mode; its blocks, coefficients, evaluate_x values and get_interpolation matrices are recovered as exact rationals (uniqueness-guarded) and TLC evaluates the same predicates on them, then compares them with the transcription. Logarithmic mode and random grids (2-40 points, x_min to 1e-9, degree 1-6) are measured in every cell of the plan TLC enumerates (Partition, Kronecker, PolyReproduce, Reinterp, ReinterpTinyX) and reported as integer decades of the residual and of a conditioning bound derived from the code's coefficients; TLC requires the residual below max(1e-8, 100 x bound) in every cell whose bound is at most 1e-7 (3 decades to the smallest structural violation), reports the others unresolved, and checks plan completeness.",
     "note": "Exact part: linear mode only (dyadic points are exact doubles; in log mode log(x) is not). Degree 4 only on the 8-value pool, degree 5-6 only through the laws: 32-bit TLC integers overflow on the monomial sums otherwise (an overflow is exit 2, never a verdict). Law cells whose conditioning bound exceeds 1e-7 are reported unresolved (high degree at small x: the monomial representation in log x loses digits). level: model_checking for the linear/dyadic part, exploration for the law part.",
     "design_ref": "4.1, 4.10, 5 C34",
     "rule": "exact instance = (dyadic grid, degree); non-trivial = accepted grid with >= 3 points; law instance = (cell, sample); distinct by grid tuple / cell tuple",
@@ -47,19 +47,19 @@ def exact_jobs(chk):
     n16 = 1500 if chk.thorough() else 60
     for _ in range(n16):
         n, d = rng.choice(dom16)
-        ks = sorted(rng.sample(range(1, 17), n))
+        ks = sorted(rng.sample(range(0 if rng.random() < 0.3 else 1, 17), n))   # a linear grid may start at x = 0
         jobs.append(([(k, 16) for k in ks], d, True))
     # pool {1/8..1}, degree 1-4
     dom8 = [(n, d) for n in range(2, 7) for d in (1, 2, 3, 4) if n > d]
     n8 = 600 if chk.thorough() else 40
     for _ in range(n8):
         n, d = rng.choice(dom8)
-        ks = sorted(rng.sample(range(1, 9), n))
+        ks = sorted(rng.sample(range(0 if rng.random() < 0.3 else 1, 9), n))
         jobs.append(([(k, 8) for k in ks], d, True))
     # all grids of 2-4 points from {1/4..1} x degree 1-3 (small, exhaustive, also unsorted input)
     for n in (2, 3, 4):
-        for ks in itertools.permutations(range(1, 5), n):
-            if n <= 3 or rng.random() < 0.3:
+        for ks in itertools.permutations(range(0, 5), n):
+            if n <= 2 or rng.random() < (0.5 if n == 3 else 0.15):
                 for d in (1, 2, 3):
                     if n > d:
                         jobs.append(([(k, 4) for k in ks], d, list(ks) == sorted(ks)))
@@ -95,9 +95,9 @@ def run(chk):
         # ---- B1: design, concurrently -------------------------------------------------------
         b1 = [
             {"module": "InterpMC", "cfg": "InterpMC_full.cfg" if chk.thorough() else "InterpMC.cfg",
-             "label": ("B1 pool {1/16..1} 2-6 points degree 1-3, pool {1/8..1} 2-6 points degree 4, rejection lists"
+             "label": ("B1 pool {0,1/16..1} 2-6 points degree 1-3, pool {1/8..1} 2-6 points degree 4, rejection lists"
                        if chk.thorough() else
-                       "B1 pool {1/8..1} 2-4 points degree 1-3 and 5 points degree 4, pool {1/16..1} 2-3 points degree 1-2, rejection lists"),
+                       "B1 pool {0,1/8..1} 2-4 points degree 1-3 and 5 points degree 4, pool {1/16..1} 2-3 points degree 1-2, rejection lists"),
              "workers": 12 if chk.thorough() else 8},
             {"module": "InterpMC", "cfg": "InterpMC_upperopen.cfg", "label": "design switch UpperClosed=FALSE (must violate)", "workers": 1, "expect_violation": "InvC34"},
         ]
